@@ -15,7 +15,8 @@ RULE = ('states = element strings: every AI of gs1_ai.dat x every witness value 
         'lengths, digit patterns, dates incl. day 00 and times, decimals with 0-9 implied places) alone, and all ordered '
         'pairs of format classes (quick; thorough adds triples of class representatives and all witnesses in pairs) x '
         'separator in {none, |, [FNC1], GS} x parentheses on/off. oracle: info(validate(x)) == info(x), validate is a '
-        'fixed point, info(encode(info(x))) == info(x) for both parentheses settings, parenthesised input decodes the same. '
+        'fixed point, info(encode(info(x))) == info(x) for both parentheses settings, parenthesised input decodes the same, '
+        'and info(x) carries the values written in x (text as is, integers, decimals by implied places, currency + amount). '
         'non-trivial = element strings that decode.')
 ASSUMPTIONS = ['witness values per format come from vp/refs/gs1_witness.py (written from the GS1 format notation)',
                'without a separator a variable-length value in a non-final position is used at its maximum length only']
@@ -70,6 +71,23 @@ def _eqv(a, b):
             return ('D', x.normalize())
         return x
     return norm(a) == norm(b)
+
+
+def _ref_value(fmt, typ, raw):
+    if typ == 'str':
+        return raw
+    if typ == 'int' and raw.isdigit():
+        return int(raw)
+    if typ == 'decimal' and raw.isdigit():
+        cur = None
+        places, digits = int(raw[0]), raw[1:]
+        if fmt.startswith('N3+'):
+            cur, digits = raw[1:4], raw[4:]
+        if not digits or places > len(digits):
+            return None
+        val = decimal.Decimal(int(digits)).scaleb(-places)
+        return (cur, val) if cur is not None else val
+    return None
 
 
 def _call(f, *a, **k):
@@ -180,6 +198,14 @@ def _evaluate(res, items, sep):
     if sorted(d) != sorted(a for a, f, t, n, r in items) and len({a for a, f, t, n, r in items}) == len(items):
         viol('decode-wrong-ais', 'info(%r) = %r' % (x, d))
         return 0
+    # the decoded values are the values written in the element string (reading of the format notation: X = text as
+    # is, N with type int = the number, decimals = digits after the first with that many implied places, N3+ = currency
+    # code and amount); dates are left to the clauses below
+    for a, f, t, n_, r in items:
+        ref = _ref_value(f, t, r)
+        if ref is not None and a in d and not _eqv(d[a], ref):
+            viol('decode-differs-from-reference', 'info(%r)[%r] = %r, the element string carries %r' % (x, a, d[a], ref))
+            break
     # parenthesised input decodes the same
     xp = build(items, sep, True)
     dp = _call(gs1_128.info, xp, **kw)
